@@ -113,6 +113,10 @@ fn misbehave(b: &[u8]) -> Result<(), String> {
         }
         Some(b'S') => Err(format!("{}", deep(0, [0u8; 512]))),
         Some(b'E') => Err("selftest error".into()),
+        // never returns (timeout handling of the libFuzzer driver script)
+        Some(b'H') => loop {
+            std::thread::sleep(std::time::Duration::from_millis(10));
+        },
         _ => Ok(()),
     }
 }
